@@ -1017,6 +1017,129 @@ def shard_corrupt(shard):
     return part
 
 
+# ---- the file is damaged / removed / replaced while the node runs; loadParameters() (power cycle) sees it; next save
+
+def reload_posts(tier):
+    """what the running node does between the damage and its regular saveParameters(): [a value change] [loadParameters]
+    [a value change] save - every combination (the leading change only in the thorough tier)"""
+    changes = [None, ['client', 'p', 1], ['driver', 'r', 0], ['driver', 'q', 0]]
+    res = []
+    for pre in (changes if tier != 'quick' else [None]):
+        for load in (False, True):
+            for post in changes:
+                res.append([st for st in (pre, ['load'] if load else None, post) if st] + [['save']])
+    return res
+
+
+def damage_fs(fs, item):
+    """environment event: the stored file is replaced / removed behind the back of the running node"""
+    _name, _cls, data = item
+    if data is None or data == 'nodir':
+        fs.names.pop(FILE, None)
+        if data == 'nodir':
+            fs.dirs.discard(PDIR)
+    else:
+        fs.names[FILE] = memfs.Inode(data)
+
+
+def check_reload(part, kind, item, post):
+    K = kinds()[kind]
+    name, cls, _d = item
+    img, base_vals = base_image(kind)
+    case = {'sub': 'reload', 'kind': kind, 'damage': name, 'post': post}
+    part.evaluations += 1
+    part.states += 1
+    fs = MemFS(img)
+    with install(fs):
+        try:
+            node = build_node(K.cfg('plain'))
+        except StartFailed as e:
+            raise core.Inconclusive(f'kind {kind}: node does not start on its own base file: {e.what} {e.text}') from None
+        try:
+            m = node.secnode.modules['m']
+            m.writeInitParams()
+            conn = node.connect()
+            if not same_vals({x: getattr(m, x) for x in PERS}, base_vals):
+                raise core.Inconclusive(f'kind {kind}: node started on the base file does not hold the base values')
+            damage_fs(fs, item)
+            damaged = content(fs.image())
+            pk = parse(damaged)[0]
+            where = (f'kind {kind} ({T.sstr(K.spec)}): node running with saved values {base_vals!r}; the file is damaged behind its '
+                     f'back ({name}: {damaged!r}); then ' + '; '.join(' '.join(map(str, st)) for st in post))
+            learned = False      # a loadParameters() that read the damaged file has returned
+            changed = False      # a value changed after that
+            if cls != 'identity' and ['load'] in post:
+                part.nontrivial += 1
+            for k, step in enumerate(post, 1):
+                fs.label = k
+                o = {'step': step, 'label': k, 'wd': bool(m.writeDict)}
+                try:
+                    if step[:2] == ['driver', 'q']:
+                        m.q = 3          # the base value of q is 7
+                    else:
+                        Scenario.do(step, K, node, m, conn, o)
+                except Exception as e:
+                    o['exc'], o['msg'] = type(e).__name__, str(e)
+                vals = {x: getattr(m, x) for x in PERS}
+                image = fs.image()
+                if step == ['load']:
+                    part.outcomes[f'reload:{cls}:{pk}:load-{"raises-" + o["exc"] if "exc" in o else "returns"}'] += 1
+                    if 'exc' not in o:
+                        learned = True
+                    continue
+                if not due(o):
+                    part.outcomes[f'reload:{cls}:{pk}:{step[0]}:no-save-due'] += 1
+                    changed = changed or step[0] != 'save'
+                    continue
+                # a save was due: what is on disk now?
+                data = content(image)
+                problem = None
+                if fs.pending():
+                    problem = ('handle-left-open', 'a file handle with unflushed data is still open after the save')
+                elif parse(data)[0] != 'object':
+                    problem = (f'file-{parse(data)[0]}', f'the file is {parse(data)[0]}: {data!r}')
+                else:
+                    rec = recover(K.cfg('plain'), (kind, 'plain'), image, part)
+                    if rec[0] != 'ok':
+                        problem = ('restart-fails', f'a node constructed on the file does not start: {rec[1]} {rec[2]}')
+                    elif not same_vals(rec[1], vals):
+                        problem = ('restart-loses-values', f'file {data!r} gives {rec[1]!r} after a restart, the module holds {vals!r}')
+                if step[0] != 'save':
+                    changed = True
+                how = 'save-after-change' if changed else 'save-without-change'
+                if not learned:
+                    # the module had no occasion to notice the damage: nothing is demanded (see Oracle calibration)
+                    part.outcomes[f'reload:{cls}:{pk}:not-reloaded:{how}:{"file-good" if not problem else problem[0]}'] += 1
+                    continue
+                part.traces += 1
+                part.outcomes[f'reload:{cls}:{pk}:reloaded:{how}:{"ok" if not problem else problem[0]}'] += 1
+                if problem:
+                    part.violation(f'C17:reload:damaged-file-{pk}:{how}:{problem[0]}', case,
+                                   f'{where}: after step {k} ({" ".join(map(str, step))}) the save counts as done, but {problem[1]}')
+                    break
+            part.transitions += len(fs.log)
+        finally:
+            node.close()
+    if part.evaluations % 499 == 1:
+        part.sample({'reload': where[:300], 'file_afterwards': repr(content(fs.image()))[:100]})
+
+
+def reload_damages(kind, tier):
+    return list(corruptions(kind, tier))
+
+
+def shard_reload(shard):
+    _sub, kind, lo, hi = shard
+    part = core.Part()
+    posts = reload_posts(core.TIER)
+    for idx, item in enumerate(reload_damages(kind, core.TIER)):
+        if not lo <= idx % 8 < hi:
+            continue
+        for post in posts:
+            check_reload(part, kind, item, post)
+    return part
+
+
 # ---- S4 / S3 across a restart with an edited configuration: every parameter shape x every configured subset
 
 SHAPES = (('a', 'writable-with-write-method'), ('b', 'writable-without-write-method'),
@@ -1323,7 +1446,7 @@ def shard_fn(shard):
     kinds()
     try:
         return {'history': shard_history, 'construct': shard_construct, 'corrupt': shard_corrupt,
-                'roundtrip': shard_roundtrip, 'restart': shard_restart}[shard[0]](shard)
+                'roundtrip': shard_roundtrip, 'restart': shard_restart, 'reload': shard_reload}[shard[0]](shard)
     except HealthyDiskFails as e:
         return healthy_fails(core.Part(), e)
 
@@ -1358,6 +1481,8 @@ def run(ctx):
                  name='corrupt')
     if not only or 'restart' in only:
         ctx.pmap(shard_fn, [('restart', k) for k in names], name='restart')
+    if not only or 'reload' in only:
+        ctx.pmap(shard_fn, [('reload', k, lo, lo + 2) for k in names for lo in (0, 2, 4, 6)], name='reload')
     if not only or 'roundtrip' in only:
         types = T.all_types(ctx.tier, b['rt_depth'])
         ctx.pmap(shard_fn, [('roundtrip', types[i:i + 8]) for i in range(0, len(types), 8)], name='roundtrip')
@@ -1437,6 +1562,11 @@ def _replay(case, part):
                 break
     elif sub == 'roundtrip':
         check_roundtrip(part, T.fromjson(case['spec']), only=case)
+    elif sub == 'reload':
+        for item in corruptions(case['kind'], 'thorough'):
+            if item[0] == case['damage']:
+                check_reload(part, case['kind'], item, case['post'])
+                break
     elif sub == 'restart':
         check_restart(part, case['kind'], case['flag'], case['run1'], case['given'], case['equal'])
     elif sub == 'base':
